@@ -122,6 +122,12 @@ def aesLoad (st : Option AesSt) (entropy : Bytes) : AesSt × Bytes :=
        ivDec := (entropy.drop Gen.ivEncBytes).take Gen.ivDecBytes },
      entropy.drop (Gen.ivEncBytes + Gen.ivDecBytes))
 
+/-- IV member `slot` of the cbc object (`0` = `iv_enc_`, anything else = `iv_dec_`); which member
+`encrypt`/`decrypt` use is generated from the source (`Gen.cbcEncIvSlot`, `Gen.cbcDecIvSlot`) -/
+def AesSt.get (st : AesSt) (slot : Nat) : Bytes := if slot = 0 then st.ivEnc else st.ivDec
+def AesSt.set (st : AesSt) (slot : Nat) (v : Bytes) : AesSt :=
+  if slot = 0 then { st with ivEnc := v } else { st with ivDec := v }
+
 def lastBlock (bs : Nat) (x : Bytes) : Bytes := x.drop (x.length - bs)
 
 /-- the plaintext buffer `input` of `aes_cipher::encrypt` (before CBC): a zero first block (its
@@ -141,9 +147,9 @@ def aesEncrypt (C : CbcAlg) (M : MacAlg) (ckey mkey : Bytes) (st : AesSt) (plain
   | some input =>
     let bsz := input.length
     let n := bsz % two32                                -- cbc_->encrypt(in,out,unsigned len)
-    let enc := C.enc ckey st.ivEnc (input.take n)
+    let enc := C.enc ckey (st.get Gen.cbcEncIvSlot) (input.take n)
     let output := enc ++ zeros (bsz - n)
-    let st' := { st with ivEnc := if n = 0 then st.ivEnc else lastBlock C.block enc }
+    let st' := if n = 0 then st else st.set Gen.cbcEncIvSlot (lastBlock C.block enc)
     (.ok (output ++ M.tag mkey output), st')
 
 /-- `aes_cipher::decrypt` (object already loaded) -/
@@ -167,8 +173,8 @@ def aesDecrypt (C : CbcAlg) (M : MacAlg) (ckey mkey : Bytes) (st : AesSt) (ciphe
       match rd cipher 0 n with
       | none => (.ub, st)
       | some cin =>
-        let full := C.dec ckey st.ivDec cin ++ zeros (real - n)      -- full_plain(real_size)
-        let st' := { st with ivDec := if n = 0 then st.ivDec else lastBlock bs cin }
+        let full := C.dec ckey (st.get Gen.cbcDecIvSlot) cin ++ zeros (real - n)      -- full_plain(real_size)
+        let st' := if n = 0 then st else st.set Gen.cbcDecIvSlot (lastBlock bs cin)
         match rd full (Gen.aesDecLenOff bs) 4 with      -- memcpy(&size,&full_plain[block_size],4)
         | none => (.ub, st')
         | some lb =>
